@@ -170,7 +170,7 @@ def process(template_path, repo, vacuity=False, verif_root=None, assume_mode=Fal
             for k, lit in enumerate(lits):
                 nm = "axiom_bytelit_%d_%s" % (k, re.sub(r"[^A-Za-z0-9]", "_", lit))
                 names.append(nm)
-                esc = lit.replace("\\", "\\\\").replace('"', '\\"')
+                esc = lit.replace("\\", "\\\\").replace('"', '\\"').replace("\r", "\\r").replace("\n", "\\n").replace("\t", "\\t")
                 emit("pub broadcast axiom fn %s() ensures (#[trigger] b\"%s\"@) == seq![%s];" % (
                     nm, esc, ", ".join("0x%02Xu8" % b for b in lit.encode("utf-8"))), ("spec", trel, i + 1, None))
             emit("pub broadcast group group_bytelits { %s } }" % ", ".join(names), ("spec", trel, i + 1, None))
